@@ -127,6 +127,8 @@ def run(chk):
     all_draws = [p.draws for p in qprogs]
     dstr = lambda d: ",".join(sc.fnum(x) for x in d)
     multi_q = lc.run_impl(qsrc, opts=["shots=%d draws=%s" % (N, dstr(d)) for d in all_draws])
+    # the CLI suppresses echo in multi-shot runs: that may change what is printed, nothing else
+    quiet_q = lc.run_impl(qsrc, opts=["shots=%d quiet draws=%s" % (N, dstr(d)) for d in all_draws])
     offs = [0] * len(qsrc)
     fresh_q = []
     for k in range(N):
@@ -157,12 +159,22 @@ def run(chk):
             bad = "final bookkeeping (" + ",".join(k for k in keys if m.get(k) != last.get(k)) + ")"
         elif not sc.amps_close([tuple(a) for a in last.get("amps", [])], m.get("amps", [])):
             bad = "final amplitudes"
+        qm = quiet_q[i]
+        if not bad:
+            if qm.get("status") != "ok":
+                bad = "status with echo suppressed (%s)" % qm.get("status")
+            elif qm.get("draws") != m.get("draws"):
+                bad = "draws and outcomes when echo is suppressed (an echo argument with a side effect was not evaluated)"
+            elif any(qm.get(k) != m.get(k) for k in keys):
+                bad = "final bookkeeping when echo is suppressed (" + ",".join(k for k in keys if qm.get(k) != m.get(k)) + ")"
+            elif not sc.amps_close([tuple(a) for a in m.get("amps", [])], qm.get("amps", [])):
+                bad = "final amplitudes when echo is suppressed"
         if bad:
             nqdiff += 1
             chk.report("c18-quantum", {"source": src, "draws": all_draws[i][:20], "differs_in": bad,
                                        "multi": {k: m.get(k) for k in ("stdout", "draws") + keys},
                                        "fresh": [{k: x.get(k) for k in ("stdout", "draws") + keys} for x in fr],
-                                       "how": "drv_prog 'run p.bloch shots=3 draws=<d>' vs three fresh 'run p.bloch draws=<remaining d>'"},
+                                       "how": "drv_prog 'run p.bloch shots=3 draws=<d>' vs three fresh 'run p.bloch draws=<remaining d>' (and 'shots=3 quiet': echo suppressed as the CLI does)"},
                        "shots of a quantum program differ from fresh runs with the same draws: %s" % bad)
     chk.cov.update({"programs": len(srcs) + len(qsrc), "classical_and_object_programs": len(srcs), "quantum_programs": len(qsrc), "shots_per_program": N,
                     "fresh_vs_reference": counts, "shot_disagreements": ndiff, "quantum_shot_disagreements": nqdiff,
